@@ -329,7 +329,7 @@ type c11Undef struct {
 }
 
 func init() {
-	register("C11", "model_checking", func(c *Ctx) {
+	register("C11", "fault_enumeration", func(c *Ctx) {
 		if c.R != nil {
 			c.R.Rule = "complete products, each case run on the real code with panics recovered per case: (a) cartridge-type byte (all 256) x ROM-size code x RAM-size code x image length class -> construct, then windows/control writes/selectors/128 CPU cycles; (b) every supported cartridge x every control-region representative x all 256 values, each followed by every (region, value-class) second write and all window accesses; (c) bus sweep: read all 64 KiB, write 00/FF everywhere, DMA from every page, LCD on/off, RAM on/off; (d) every opcode (512 encodings x 8 operand pairs) and every ordered pair from a representative set, pointers/SP/PC placed in 22 region classes, on each controller type; (e) the 11 undefined opcodes must exit with status 1 and the message (sub-processes)"
 			c.R.Assumptions = []string{"a panic inside the constructor counts as 'fails during construction'", "programs are stopped by the harness before an undefined opcode executes (the deliberate stop is checked separately)", "crash = Go panic or process exit; memory growth and non-termination are out of scope (there is no allocation or unbounded loop on the emulation path)"}
